@@ -10,6 +10,7 @@ import (
 	"github.com/hattya/go.sh/ast"
 	"github.com/hattya/go.sh/interp"
 	"github.com/hattya/go.sh/parser"
+	"github.com/hattya/go.sh/pattern"
 
 	"verif/core"
 	"verif/refpat"
@@ -22,7 +23,7 @@ type c15Case struct {
 	Kind string `json:"kind"`
 }
 
-var c15Alpha = []string{" ", "\t", "\n", "'", `"`, `\`, "$", "`", "*", "?", "[", "]", "~", "#", "&", "|", ";", "<", ">", "(", ")", "{", "}", "!", "a", "=", ":", "/", "é"}
+var c15Alpha = []string{" ", "\t", "\n", "'", `"`, `\`, "$", "`", "*", "?", "[", "]", "~", "#", "&", "|", ";", "<", ">", "(", ")", "{", "}", "!", "a", "=", ":", "/", "é", "1"}
 
 var c15DirOnce sync.Once
 var c15Dir string
@@ -213,6 +214,28 @@ func c15Exec(c *core.Ctx, cs c15Case) {
 			for _, t := range c15Variants(s) {
 				if pp.MatchWhole([]rune(t)) {
 					c.Violation("pattern", key+" mode=pattern", "a pattern matching only "+fmt.Sprintf("%q", s), fmt.Sprintf("%q also matches %q", got[0], t), "")
+					break
+				}
+			}
+			// ... and go.sh's own matcher agrees: the pattern matches s as a whole and none of its edits
+			whole := func(t string) (bool, error) {
+				m, err := pattern.Match([]string{got[0]}, pattern.Prefix|pattern.Largest, t)
+				if err != nil && err != pattern.NoMatch {
+					return false, err
+				}
+				return err == nil && m == t, nil
+			}
+			if v != 0 {
+				continue
+			}
+			c.Eval(1)
+			if ok, err := whole(s); err != nil || !ok {
+				c.Violation("pattern-own-matcher", key+" mode=pattern", fmt.Sprintf("pattern.Match(%q) matches %q as a whole", got[0], s), fmt.Sprintf("matched=%v err=%v", ok, err), "")
+				continue
+			}
+			for _, t := range c15Variants(s) {
+				if ok, _ := whole(t); ok && t != s {
+					c.Violation("pattern-own-matcher", key+" mode=pattern", "matches only "+fmt.Sprintf("%q", s), fmt.Sprintf("pattern.Match(%q) also matches %q", got[0], t), "")
 					break
 				}
 			}
